@@ -14,6 +14,12 @@
 (*            (handler reply), senderr (handler error / received stream    *)
 (*            error), then closeinput and close                            *)
 (*   "rx"     a read through TokenReader after everything else             *)
+(*   "sclose" / "stx"  a CLOSED token writer used again: Close once more /  *)
+(*            tokens written through it.  A token writer is one transmit   *)
+(*            call ("tx"); its handle is dead once Close has returned, and *)
+(*            the application may still use it at any later time - also    *)
+(*            while somebody else holds a NEW token writer (handles are    *)
+(*            told apart by the call that made them)                       *)
 (* One action per critical section / linearisation point of the code.      *)
 (***************************************************************************)
 EXTENDS Integers, Sequences, FiniteSets, TLC
@@ -36,12 +42,24 @@ VARIABLES prog,       \* prog[p]: calls still to make
           dl,         \* the close deadline: "none", "armed" (SetCloseDeadline called), "rearmed" (called again with a
                       \* LATER time: the earlier, replaced deadline has not gone by yet), "passed"
           broken,     \* a transmit failed in the transport (expired context): the encoder keeps the error
-          sv          \* serve process state: [phase, reason, pending]
+          sv,         \* serve process state: [phase, reason, pending]
+          sh          \* Serve's history: [got, stale].  got: the item of the peer that ended the reading ("none" as long
+                      \* as Serve goes on: "close", "streamerr", "stanza_herr", "eof").  stale (only used by the
+                      \* deviation ServeCachesDone): "set" once SetCloseDeadline was called WHILE Serve was running,
+                      \* "due" once Serve has handled a further element after that
 
-vars == <<prog, cur, lock, outClosed, inClosed, wire, rets, peer, avail, failArmed, dl, broken, sv>>
+vars == <<prog, cur, lock, outClosed, inClosed, wire, rets, peer, avail, failArmed, dl, broken, sv, sh>>
 
 NoCall == [k |-> "none", st |-> "none", wrote |-> 0]
-Items == {"stanza", "stanza_reply", "stanza_herr", "close", "streamerr", "eof"}
+(* Peer items.  "stanza_herr*": a stanza whose handler returns an error; the KIND of error is part of the item:     *)
+(*   stanza_herr      a plain error                    stanza_herr_weof  an error that wraps io.EOF                *)
+(*   stanza_herr_ueof io.ErrUnexpectedEOF              stanza_herr_st    a stanza.Error value                       *)
+(*   stanza_herr_ctx  a context error                   stanza_herr_se / _wse  a stream.Error value / wrapped one    *)
+(*   stanza_heof      a bare io.EOF (the handler reached the end of its element - not the end of the stream)       *)
+HerrPlain == {"stanza_herr", "stanza_herr_weof", "stanza_herr_ueof", "stanza_herr_st", "stanza_herr_ctx"}
+HerrSE    == {"stanza_herr_se", "stanza_herr_wse"}
+Herr      == HerrPlain \cup HerrSE \cup {"stanza_heof"}
+Items == {"stanza", "stanza_reply", "close", "streamerr", "eof"} \cup Herr
 
 Init ==
   /\ prog \in {f \in [Procs -> Programs] :
@@ -51,6 +69,7 @@ Init ==
   /\ wire = <<>> /\ rets = [p \in Procs |-> <<>>]
   /\ peer \in PeerScripts /\ avail = 0 /\ failArmed \in BOOLEAN /\ dl = "none" /\ broken = FALSE
   /\ sv = [phase |-> "idle", reason |-> "none", owner |-> "none", pending |-> 0]
+  /\ sh = [got |-> "none", stale |-> "no"]
 
 -----------------------------------------------------------------------------
 (* Generic call protocol: Enter -> Acquire -> (body) -> Return                      *)
@@ -62,7 +81,7 @@ Begin(p) ==       \* the next call of p's program starts (before taking any lock
   /\ IF sv.owner = p /\ sv.phase \in {"reading", "closing"}
      THEN sv.pending > 0 /\ sv' = [sv EXCEPT !.pending = @ - 1]   \* only calls Serve itself issued
      ELSE UNCHANGED sv
-  /\ UNCHANGED <<lock, outClosed, inClosed, wire, rets, peer, avail, failArmed, dl, broken>>
+  /\ UNCHANGED <<lock, outClosed, inClosed, wire, rets, peer, avail, failArmed, dl, broken, sh>>
 
 TxKinds == {"tx", "txc"}     \* "txc": a transmit call whose context is already done
 NeedsOutLock(k) == k \in TxKinds \cup {"close", "senderr"}
@@ -71,7 +90,7 @@ Acquire(p) ==
   /\ cur[p].st = "entered" /\ NeedsOutLock(cur[p].k) /\ lock = "free"
   /\ lock' = p
   /\ cur' = [cur EXCEPT ![p].st = "holding"]
-  /\ UNCHANGED <<prog, outClosed, inClosed, wire, rets, peer, avail, failArmed, dl, broken, sv>>
+  /\ UNCHANGED <<prog, outClosed, inClosed, wire, rets, peer, avail, failArmed, dl, broken, sv, sh>>
 
 (* The body of the call is over: the lock (if held) is released here.  The caller   *)
 (* observes the return later (Ret): between the two other goroutines may run.       *)
@@ -84,7 +103,7 @@ Ret(p) ==
   /\ cur[p].st = "returning"
   /\ rets' = [rets EXCEPT ![p] = Append(@, [k |-> cur[p].k, class |-> cur[p].class])]
   /\ cur' = [cur EXCEPT ![p] = NoCall]
-  /\ UNCHANGED <<prog, lock, outClosed, inClosed, wire, peer, avail, failArmed, dl, broken, sv>>
+  /\ UNCHANGED <<prog, lock, outClosed, inClosed, wire, peer, avail, failArmed, dl, broken, sv, sh>>
 
 (* Transmit: refused once the output stream is closed (C10), otherwise writes its    *)
 (* element in one or more chunks while holding the lock (C05).                       *)
@@ -92,7 +111,7 @@ TxRefuse(p) ==
   /\ cur[p].k \in TxKinds /\ cur[p].st = "holding" /\ outClosed /\ cur[p].wrote = 0
   /\ "WriteAfterClose" \notin Dev
   /\ Return(p, "closed")
-  /\ UNCHANGED <<prog, outClosed, inClosed, wire, peer, avail, failArmed, dl, broken, sv>>
+  /\ UNCHANGED <<prog, outClosed, inClosed, wire, peer, avail, failArmed, dl, broken, sv, sh>>
 
 TxWrite(p) ==
   /\ cur[p].k \in TxKinds /\ cur[p].st = "holding" /\ ~broken
@@ -100,12 +119,12 @@ TxWrite(p) ==
   /\ cur[p].wrote < MaxChunks
   /\ wire' = Append(wire, [p |-> p, what |-> "elem", c |-> Len(rets[p])])
   /\ cur' = [cur EXCEPT ![p].wrote = @ + 1]
-  /\ UNCHANGED <<prog, lock, outClosed, inClosed, rets, peer, avail, failArmed, dl, broken, sv>>
+  /\ UNCHANGED <<prog, lock, outClosed, inClosed, rets, peer, avail, failArmed, dl, broken, sv, sh>>
 
 TxDone(p) ==
   /\ cur[p].k \in TxKinds /\ cur[p].st = "holding" /\ cur[p].wrote >= 1 /\ ~broken
   /\ Return(p, "nil")
-  /\ UNCHANGED <<prog, outClosed, inClosed, wire, peer, avail, failArmed, dl, broken, sv>>
+  /\ UNCHANGED <<prog, outClosed, inClosed, wire, peer, avail, failArmed, dl, broken, sv, sh>>
 
 (* A transmit call whose context is done may be interrupted in the transport (the write   *)
 (* deadline): it reports the error, and the encoder keeps it - every later write fails     *)
@@ -115,12 +134,12 @@ TxcFail(p) ==
   /\ broken' = TRUE
   /\ Return(p, "other")
   /\ dl' = (IF "TxDisarmsDeadline" \in Dev THEN "none" ELSE dl)
-  /\ UNCHANGED <<prog, outClosed, inClosed, wire, peer, avail, failArmed, sv>>
+  /\ UNCHANGED <<prog, outClosed, inClosed, wire, peer, avail, failArmed, sv, sh>>
 
 TxBroken(p) ==
   /\ cur[p].k \in TxKinds /\ cur[p].st = "holding" /\ ~outClosed /\ broken
   /\ Return(p, "other")
-  /\ UNCHANGED <<prog, outClosed, inClosed, wire, peer, avail, failArmed, dl, broken, sv>>
+  /\ UNCHANGED <<prog, outClosed, inClosed, wire, peer, avail, failArmed, dl, broken, sv, sh>>
 
 (* Close: writes the closing tag exactly once, whoever gets there first.             *)
 CloseWrite(p) ==
@@ -131,7 +150,7 @@ CloseWrite(p) ==
   \*  closing tag - the pinned tests even expect that it does not; if written it goes first)
   /\ outClosed' = TRUE
   /\ wire' = Append(wire, [p |-> p, what |-> "close", c |-> Len(rets[p])])
-  /\ UNCHANGED <<prog, cur, lock, inClosed, rets, peer, avail, failArmed, dl, broken, sv>>
+  /\ UNCHANGED <<prog, cur, lock, inClosed, rets, peer, avail, failArmed, dl, broken, sv, sh>>
 
 (* The transport fails the write of the closing tag: the stream is closed all the same -  *)
 (* a later Close must not write the tag again and transmit calls are refused - and the     *)
@@ -140,30 +159,57 @@ CloseWriteFail(p) ==
   /\ cur[p].k \in {"close", "senderr"} /\ cur[p].st = "holding" /\ ~outClosed /\ (failArmed \/ broken)
   /\ outClosed' = TRUE /\ failArmed' = (IF broken THEN failArmed ELSE FALSE)
   /\ Return(p, "other")
-  /\ UNCHANGED <<prog, inClosed, wire, peer, avail, dl, broken, sv>>
+  /\ UNCHANGED <<prog, inClosed, wire, peer, avail, dl, broken, sv, sh>>
 
 ErrWrite(p) ==
   /\ cur[p].k = "senderr" /\ cur[p].st = "holding" /\ ~outClosed /\ cur[p].wrote = 0 /\ ~broken
   /\ wire' = Append(wire, [p |-> p, what |-> "err", c |-> Len(rets[p])])
   /\ cur' = [cur EXCEPT ![p].wrote = 1]
-  /\ UNCHANGED <<prog, lock, outClosed, inClosed, rets, peer, avail, failArmed, dl, broken, sv>>
+  /\ UNCHANGED <<prog, lock, outClosed, inClosed, rets, peer, avail, failArmed, dl, broken, sv, sh>>
 
 CloseDone(p) ==
   /\ cur[p].k \in {"close", "senderr"} /\ cur[p].st = "holding" /\ outClosed
   /\ Return(p, "nil")
-  /\ UNCHANGED <<prog, outClosed, inClosed, wire, peer, avail, failArmed, dl, broken, sv>>
+  /\ UNCHANGED <<prog, outClosed, inClosed, wire, peer, avail, failArmed, dl, broken, sv, sh>>
+
+(* A closed token writer used again.  "After the TokenWriteCloser has been closed, any future writes will return     *)
+(* io.EOF" (Session.TokenWriter): nothing reaches the wire; a second Close is a no-op.  Neither needs nor touches the *)
+(* output lock - whoever holds it now, with a token writer of his own or through any other entry point, is not       *)
+(* affected.  Possible only once some transmit call has returned (there is a closed handle).                         *)
+StaleKinds == {"sclose", "stx"}
+SomeHandleClosed == \E q \in Procs : \E i \in 1..Len(rets[q]) : rets[q][i].k \in TxKinds
+StaleOp(p, class) ==
+  /\ cur[p].k \in StaleKinds /\ cur[p].st = "entered" /\ SomeHandleClosed
+  \* (tokens: io.EOF - or the output-closed error, once the session's output is closed; never success)
+  /\ class \in (IF cur[p].k = "stx" THEN {"eof"} \cup (IF outClosed THEN {"closed"} ELSE {}) ELSE {"nil", "eof"})
+  /\ cur' = [cur EXCEPT ![p] = [k |-> cur[p].k, st |-> "returning", wrote |-> 0, class |-> class]]
+  /\ UNCHANGED <<prog, lock, outClosed, inClosed, wire, rets, peer, avail, failArmed, dl, broken, sv, sh>>
+
+(* (deviations, the shape of a real mistake: ONE writer object kept in the session and handed out again by every     *)
+(* TokenWriter call, its closed mark cleared each time - an old handle is then the live writer of the current holder) *)
+StaleCloseUnlocks(p) ==      \* the second Close flushes and gives away the lock of whoever holds it
+  /\ "StaleHandleIsLive" \in Dev /\ cur[p].k = "sclose" /\ cur[p].st = "entered" /\ SomeHandleClosed
+  /\ lock \notin {"free", p} /\ lock' = "free"
+  /\ cur' = [cur EXCEPT ![p] = [k |-> cur[p].k, st |-> "returning", wrote |-> 0, class |-> "nil"]]
+  /\ UNCHANGED <<prog, outClosed, inClosed, wire, rets, peer, avail, failArmed, dl, broken, sv, sh>>
+StaleWriteLands(p) ==        \* tokens written through the old handle go out, inside whatever is being written
+  /\ "StaleHandleIsLive" \in Dev /\ cur[p].k = "stx" /\ cur[p].st = "entered" /\ SomeHandleClosed
+  /\ lock \notin {"free", p} /\ ~outClosed
+  /\ wire' = Append(wire, [p |-> p, what |-> "elem", c |-> Len(rets[p])])
+  /\ cur' = [cur EXCEPT ![p] = [k |-> cur[p].k, st |-> "returning", wrote |-> 1, class |-> "nil"]]
+  /\ UNCHANGED <<prog, lock, outClosed, inClosed, rets, peer, avail, failArmed, dl, broken, sv, sh>>
 
 (* Input side *)
 CloseInput(p) ==
   /\ cur[p].k = "closeinput" /\ cur[p].st = "entered"
   /\ inClosed' = TRUE
   /\ Return(p, "nil")
-  /\ UNCHANGED <<prog, outClosed, wire, peer, avail, failArmed, dl, broken, sv>>
+  /\ UNCHANGED <<prog, outClosed, wire, peer, avail, failArmed, dl, broken, sv, sh>>
 
 Rx(p) ==          \* a read attempt after Serve is over
   /\ cur[p].k = "rx" /\ cur[p].st = "entered"
   /\ Return(p, IF inClosed THEN "inclosed" ELSE "other")
-  /\ UNCHANGED <<prog, outClosed, inClosed, wire, peer, avail, failArmed, dl, broken, sv>>
+  /\ UNCHANGED <<prog, outClosed, inClosed, wire, peer, avail, failArmed, dl, broken, sv, sh>>
 
 -----------------------------------------------------------------------------
 (* Serve: one item of peer input at a time.  The serve call stays current while the *)
@@ -173,32 +219,56 @@ ServeStart(p) ==
   /\ cur[p].k = "serve" /\ cur[p].st = "entered" /\ sv.phase = "idle"
   /\ sv' = [sv EXCEPT !.phase = "reading", !.owner = p]
   /\ cur' = [cur EXCEPT ![p] = NoCall]           \* sub-calls follow; ServeRet ends it
-  /\ UNCHANGED <<prog, lock, outClosed, inClosed, wire, rets, peer, avail, failArmed, dl, broken>>
+  /\ UNCHANGED <<prog, lock, outClosed, inClosed, wire, rets, peer, avail, failArmed, dl, broken, sh>>
 
 PeerFeed ==
   /\ avail < Len(peer) /\ avail' = avail + 1
-  /\ UNCHANGED <<prog, cur, lock, outClosed, inClosed, wire, rets, peer, failArmed, dl, broken, sv>>
+  /\ UNCHANGED <<prog, cur, lock, outClosed, inClosed, wire, rets, peer, failArmed, dl, broken, sv, sh>>
 
+(* Serve goes on reading after an element that is none of the three reasons to return - in particular after *)
+(* the application has called SetCloseDeadline (that call only arms the deadline).  sh.got records the item    *)
+(* that ended the reading.                                                                                    *)
+Seen(h) == [h EXCEPT !.stale = (IF h.stale = "set" THEN "due" ELSE h.stale)]
 ServeItem(p) ==
   /\ sv.phase = "reading" /\ sv.owner = p /\ sv.pending = 0 /\ cur[p] = NoCall /\ avail > 0
   /\ LET it == Head(peer) IN
      /\ peer' = Tail(peer) /\ avail' = avail - 1
-     /\ CASE it = "stanza" -> UNCHANGED <<prog, sv>>
-          [] it = "stanza_reply" -> prog' = [prog EXCEPT ![p] = <<"tx">> \o @] /\ sv' = [sv EXCEPT !.pending = 1]
-          [] it = "stanza_herr" ->
-               /\ prog' = [prog EXCEPT ![p] = <<"senderr", "closeinput", "close">> \o @]
-               /\ sv' = [sv EXCEPT !.phase = "closing", !.reason = "herr", !.pending = 3]
+     /\ CASE it = "stanza" -> UNCHANGED <<prog, sv>> /\ sh' = Seen(sh)
+          [] it = "stanza_reply" -> /\ prog' = [prog EXCEPT ![p] = <<"tx">> \o @] /\ sv' = [sv EXCEPT !.pending = 1]
+                                    /\ sh' = Seen(sh)
+          \* Whatever error the handler returns - wrapping io.EOF or not -, it is the handler's error and not the end of
+          \* the peer's stream: a stream error goes out and Serve reports an error.  (Serve: "If an error is returned from
+          \* the handler and it is of type stanza.Error or stream.Error, the error is marshaled and sent over the XML
+          \* stream.  If any other error type is returned, it is marshaled as an undefined-condition StreamError.")
+          [] it \in HerrPlain \cup HerrSE ->
+               IF "WrappedEOFIsPeerClose" \in Dev /\ it = "stanza_herr_weof"
+               THEN /\ prog' = [prog EXCEPT ![p] = <<"closeinput", "close">> \o @]     \* (deviation: taken for the end of the stream)
+                    /\ sv' = [sv EXCEPT !.phase = "closing", !.reason = "peerclose", !.pending = 2]
+                    /\ sh' = [Seen(sh) EXCEPT !.got = it]
+               ELSE /\ prog' = [prog EXCEPT ![p] = <<"senderr", "closeinput", "close">> \o @]
+                    /\ sv' = [sv EXCEPT !.phase = "closing", !.reason = (IF it \in HerrSE THEN "herr_se" ELSE "herr"), !.pending = 3]
+                    /\ sh' = [Seen(sh) EXCEPT !.got = it]
+          \* a bare io.EOF from the handler: nobody documents it; it is either no error at all (Serve goes on) or an
+          \* error like any other - but never the end of the peer's stream
+          [] it = "stanza_heof" ->
+               \/ UNCHANGED <<prog, sv>> /\ sh' = Seen(sh)
+               \/ /\ prog' = [prog EXCEPT ![p] = <<"senderr", "closeinput", "close">> \o @]
+                  /\ sv' = [sv EXCEPT !.phase = "closing", !.reason = "herr", !.pending = 3]
+                  /\ sh' = [Seen(sh) EXCEPT !.got = it]
           [] it = "streamerr" ->
                /\ prog' = [prog EXCEPT ![p] = <<"senderr", "closeinput", "close">> \o @]
                /\ sv' = [sv EXCEPT !.phase = "closing", !.reason = "streamerr", !.pending = 3]
+               /\ sh' = [Seen(sh) EXCEPT !.got = it]
           [] it = "close" ->
                /\ prog' = [prog EXCEPT ![p] = <<"closeinput", "close">> \o @]
                /\ sv' = [sv EXCEPT !.phase = "closing", !.reason = "peerclose", !.pending = 2]
+               /\ sh' = [Seen(sh) EXCEPT !.got = it]
           [] it = "eof" ->      \* raw end of the byte stream: the property is silent; either path
-               \/ /\ prog' = [prog EXCEPT ![p] = <<"closeinput", "close">> \o @]
-                  /\ sv' = [sv EXCEPT !.phase = "closing", !.reason = "eof", !.pending = 2]
-               \/ /\ prog' = [prog EXCEPT ![p] = <<"senderr", "closeinput", "close">> \o @]
-                  /\ sv' = [sv EXCEPT !.phase = "closing", !.reason = "eof", !.pending = 3]
+               /\ sh' = [Seen(sh) EXCEPT !.got = it]
+               /\ \/ /\ prog' = [prog EXCEPT ![p] = <<"closeinput", "close">> \o @]
+                     /\ sv' = [sv EXCEPT !.phase = "closing", !.reason = "eof", !.pending = 2]
+                  \/ /\ prog' = [prog EXCEPT ![p] = <<"senderr", "closeinput", "close">> \o @]
+                     /\ sv' = [sv EXCEPT !.phase = "closing", !.reason = "eof", !.pending = 3]
   /\ UNCHANGED <<cur, lock, outClosed, inClosed, wire, rets, failArmed, dl, broken>>
 
 (* A reply the handler could not write because the output stream was closed locally  *)
@@ -207,20 +277,32 @@ ServeItem(p) ==
 (* yet): Serve ends with an error, by either shutdown path.                                *)
 (* SetCloseDeadline arms it; it passes later (or at once, when set to a time in the past).  *)
 (* Nothing else disarms it: in particular no transmit call, whatever becomes of its context. *)
+(* (deviation ServeCachesDone, the shape of a real mistake: Serve keeps the cancellation channel of the input   *)
+(* context it found when it started; SetCloseDeadline replaces that context and cancels the old one)           *)
+Staled == IF "ServeCachesDone" \in Dev /\ sv.phase = "reading" /\ sh.stale = "no" THEN [sh EXCEPT !.stale = "set"] ELSE sh
 DeadlineSet ==
-  /\ dl = "none" /\ dl' = "armed"
+  /\ dl = "none" /\ dl' = "armed" /\ sh' = Staled
   /\ UNCHANGED <<prog, cur, lock, outClosed, inClosed, wire, rets, peer, avail, failArmed, broken, sv>>
 Deadline ==
   /\ dl \in {"none", "armed"} /\ dl' = "passed"
-  /\ UNCHANGED <<prog, cur, lock, outClosed, inClosed, wire, rets, peer, avail, failArmed, broken, sv>>
+  /\ UNCHANGED <<prog, cur, lock, outClosed, inClosed, wire, rets, peer, avail, failArmed, broken, sv, sh>>
 (* SetCloseDeadline once more, with a later time: THE close deadline is the one set last.  The time it replaced *)
 (* goes by first (an event of its own) and is nobody's deadline any more: nothing happens.                     *)
 DeadlineReset ==
-  /\ dl = "armed" /\ dl' = "rearmed"
+  /\ dl = "armed" /\ dl' = "rearmed" /\ sh' = Staled
   /\ UNCHANGED <<prog, cur, lock, outClosed, inClosed, wire, rets, peer, avail, failArmed, broken, sv>>
 OldDeadlineGoesBy ==
   /\ dl = "rearmed" /\ dl' = (IF "ReplacedDeadlineFires" \in Dev THEN "passed" ELSE "armed")
-  /\ UNCHANGED <<prog, cur, lock, outClosed, inClosed, wire, rets, peer, avail, failArmed, broken, sv>>
+  /\ UNCHANGED <<prog, cur, lock, outClosed, inClosed, wire, rets, peer, avail, failArmed, broken, sv, sh>>
+
+(* only with the deviation: back at the top of its loop after the next element, Serve finds "its" context done   *)
+(* and shuts down - reporting the error of the CURRENT context, which is nil before the deadline                  *)
+ServeStale(p) ==
+  /\ "ServeCachesDone" \in Dev /\ sh.stale = "due"
+  /\ sv.phase = "reading" /\ sv.owner = p /\ sv.pending = 0 /\ cur[p] = NoCall
+  /\ prog' = [prog EXCEPT ![p] = <<"closeinput", "close">> \o @]
+  /\ sv' = [sv EXCEPT !.phase = "closing", !.reason = "ctxdone", !.pending = 2]
+  /\ UNCHANGED <<cur, lock, outClosed, inClosed, wire, rets, peer, avail, failArmed, dl, broken, sh>>
 
 ServeDeadline(p) ==
   /\ sv.phase = "reading" /\ sv.owner = p /\ sv.pending = 0 /\ cur[p] = NoCall /\ dl = "passed"
@@ -228,14 +310,14 @@ ServeDeadline(p) ==
         /\ sv' = [sv EXCEPT !.phase = "closing", !.reason = "deadline", !.pending = 2]
      \/ /\ prog' = [prog EXCEPT ![p] = <<"senderr", "closeinput", "close">> \o @]
         /\ sv' = [sv EXCEPT !.phase = "closing", !.reason = "deadline", !.pending = 3]
-  /\ UNCHANGED <<cur, lock, outClosed, inClosed, wire, rets, peer, avail, failArmed, dl, broken>>
+  /\ UNCHANGED <<cur, lock, outClosed, inClosed, wire, rets, peer, avail, failArmed, dl, broken, sh>>
 
 ServeAbort(p) ==
   /\ sv.phase = "reading" /\ sv.owner = p /\ sv.pending = 0 /\ cur[p] = NoCall
   /\ rets[p] # <<>> /\ rets[p][Len(rets[p])] \in {[k |-> "tx", class |-> "closed"], [k |-> "tx", class |-> "other"]}
   /\ prog' = [prog EXCEPT ![p] = <<"senderr", "closeinput", "close">> \o @]
   /\ sv' = [sv EXCEPT !.phase = "closing", !.reason = "refused", !.pending = 3]
-  /\ UNCHANGED <<cur, lock, outClosed, inClosed, wire, rets, peer, avail, failArmed, dl, broken>>
+  /\ UNCHANGED <<cur, lock, outClosed, inClosed, wire, rets, peer, avail, failArmed, dl, broken, sh>>
 
 (* Serve returns once its shutdown calls are done: nil after the peer's close, the   *)
 (* error otherwise; both directions are closed.                                      *)
@@ -245,12 +327,14 @@ ServeRet(p, class) ==
   /\ CASE sv.reason = "peerclose" ->      \* nil - unless Serve's own Close could not write the closing tag
             class = (IF rets[p][Len(rets[p])].class = "other" THEN "other" ELSE "nil")
        [] sv.reason = "streamerr" -> class = "streamerr"
+       [] sv.reason = "herr_se" -> class \in {"streamerr", "other"}     \* the handler's stream error, or an error about it
        [] sv.reason = "eof" -> class \in {"nil", "other"}     \* the property is silent on a raw EOF
        [] sv.reason = "refused" -> class \in {"closed", "other"}
+       [] sv.reason = "ctxdone" -> class = (IF dl = "passed" THEN "other" ELSE "nil")    \* (deviation only)
        [] OTHER -> class = "other"
   /\ sv' = [sv EXCEPT !.phase = "done"]
   /\ rets' = [rets EXCEPT ![p] = Append(@, [k |-> "serve", class |-> class])]
-  /\ UNCHANGED <<prog, cur, lock, outClosed, inClosed, wire, peer, avail, failArmed, dl, broken>>
+  /\ UNCHANGED <<prog, cur, lock, outClosed, inClosed, wire, peer, avail, failArmed, dl, broken, sh>>
 
 -----------------------------------------------------------------------------
 Next ==
@@ -258,7 +342,8 @@ Next ==
   \/ \E p \in Procs :
       \/ Begin(p) \/ Ret(p) \/ Acquire(p) \/ TxRefuse(p) \/ TxWrite(p) \/ TxDone(p) \/ TxcFail(p) \/ TxBroken(p)
       \/ CloseWrite(p) \/ CloseWriteFail(p) \/ ErrWrite(p) \/ CloseDone(p) \/ CloseInput(p) \/ Rx(p)
-      \/ ServeStart(p) \/ ServeItem(p) \/ ServeAbort(p) \/ ServeDeadline(p)
+      \/ (\E c \in {"nil", "eof", "closed"} : StaleOp(p, c)) \/ StaleCloseUnlocks(p) \/ StaleWriteLands(p)
+      \/ ServeStart(p) \/ ServeItem(p) \/ ServeAbort(p) \/ ServeDeadline(p) \/ ServeStale(p)
       \/ \E c \in {"nil", "streamerr", "other", "closed"} : ServeRet(p, c)
 
 Spec == Init /\ [][Next]_vars
@@ -282,6 +367,24 @@ C10_DeadlineKept == [][(dl \in {"armed", "rearmed"} => dl' \in {"armed", "rearme
 (* ... and a time that was replaced by a later deadline is no deadline: its going by changes nothing *)
 C10_ReplacedDeadlineInert == [][dl = "rearmed" => dl' \in {"rearmed", "armed"}]_vars
 C10_BothClosedAfterServe == sv.phase = "done" => outClosed /\ inClosed
+(* Serve stops reading (and returns) for a reason, stated over what has HAPPENED - not over Serve's own          *)
+(* bookkeeping: the peer closed its stream; a stream error is exchanged (received, or sent because the handler   *)
+(* failed or its reply could not be written); the close deadline has passed.  (The raw end of the transport is   *)
+(* a fourth reason the property is silent about.)  Nothing else - not a SetCloseDeadline call, not a further     *)
+(* element - ends it; every element before the reason has been consumed (ServeItem takes them in order).         *)
+Refused(p) == \E i \in 1..Len(rets[p]) : rets[p][i].k \in TxKinds /\ rets[p][i].class \in {"closed", "other"}
+C10_ServeReturnsForCause ==
+  sv.phase \in {"closing", "done"} =>
+     \/ sh.got = "close"
+     \/ sh.got \in {"streamerr"} \cup Herr \/ Refused(sv.owner)
+     \/ dl = "passed"
+     \/ sh.got = "eof"
+(* ... and what it returns tells which: nil only after the peer's close (or the raw end of input) - never because *)
+(* a handler failed, whatever its error wraps -, a stream error only if one was received or returned by the handler *)
+C10_ServeRetTellsCause ==
+  \A p \in Procs : \A i \in 1..Len(rets[p]) : rets[p][i].k = "serve" =>
+     /\ (rets[p][i].class = "nil" => sh.got \in {"close", "eof"})
+     /\ (rets[p][i].class = "streamerr" => sh.got \in {"streamerr"} \cup HerrSE)
 C10_ReadsRefused ==
   \A p \in Procs : \A i \in 1..Len(rets[p]) :
      rets[p][i].k = "rx" /\ sv.phase = "done" => TRUE
@@ -303,8 +406,12 @@ C05_NoStrayWrites ==
      \/ cur[wire[i].p].k \in TxKinds
      \/ broken /\ \E j \in 1..Len(rets[wire[i].p]) : rets[wire[i].p][j] = [k |-> "txc", class |-> "other"]
 
+(* a closed token writer stays closed: tokens written through it are refused with io.EOF, whoever holds the lock *)
+C05_StaleHandleDead ==
+  \A p \in Procs : \A i \in 1..Len(rets[p]) : rets[p][i].k = "stx" => rets[p][i].class \in {"eof", "closed"}
+
 (* liveness (FairSpec, no deviations): every program finishes, Serve returns *)
 Terminates == <>(\A p \in Procs : prog[p] = <<>> /\ cur[p] = NoCall)
 
-View == <<prog, cur, lock, outClosed, inClosed, wire, rets, peer, avail, failArmed, dl, broken, sv>>
+View == <<prog, cur, lock, outClosed, inClosed, wire, rets, peer, avail, failArmed, dl, broken, sv, sh>>
 =============================================================================
